@@ -114,6 +114,7 @@ static int fill(Rng &r, const Cfg &c, Metadata *m, int depth) {
   std::vector<std::string> used;
   for (int i = 0; i < ne && *c.budget > 0; i++) {
     std::string nm = (!used.empty() && r.chance(10)) ? used[r.below(used.size())] : gen_name(r, c);
+    if (c.max_entries > 100 && depth == 0) nm = S(i) + "_" + nm.substr(0, 3);   // wide levels: distinct names, so that the level really has > 255 entries
     used.push_back(nm);
     add_entry(r, c, m, nm);
     (*c.budget)--;
@@ -125,6 +126,7 @@ static int fill(Rng &r, const Cfg &c, Metadata *m, int depth) {
     for (int i = 0; i < ns && *c.budget > 0; i++) {
       // sub names may repeat entry names (different maps) and, rarely, each other (AddSubMetadata then fails)
       std::string nm = (!used.empty() && r.chance(25)) ? used[r.below(used.size())] : gen_name(r, c);
+      if (c.max_subs > 100 && depth == 0) nm = "s" + S(i) + "_" + nm.substr(0, 3);
       used.push_back(nm);
       std::unique_ptr<Metadata> sub(new Metadata());
       (*c.budget) -= 2;
